@@ -380,5 +380,11 @@ pub fn run(seed: u64, tiny: bool, _focus: &str) -> Outcome {
     let mut v = Verdicts::default();
     c19(&h, &w, &c, &mut v);
     shared_selector(&h, &mut v, "C16");
+    // the stop-barrier oracle also under its own name (a stop() issued from another store's pool thread)
+    for s in 0..2u8 {
+        if !stop_timed_out(&h, s) {
+            c04(&h, s, &mut v, "C04");
+        }
+    }
     Outcome::new(describe(&c), h, v)
 }
